@@ -198,6 +198,13 @@ func effectsCmd(args []string) error {
 				proj = cwd
 			}
 		}
+		// sometimes an earlier fault has left the cache file unreadable (empty, torn, or not JSON)
+		if found && loads && r.Intn(4) == 0 {
+			os.MkdirAll(filepath.Join(proj, ".spok"), 0o755)
+			os.WriteFile(filepath.Join(proj, ".spok", "cache.json"), []byte([]string{"", "{\"a\":\"12", "not json"}[r.Intn(3)]), 0o644)
+			os.WriteFile(filepath.Join(proj, ".spok", ".gitignore"), []byte("*\n"), 0o644)
+			st.Kinds["with-unreadable-cache"]++
+		}
 		// flags
 		letters := ""
 		var argv []string
